@@ -1,11 +1,229 @@
 package main
 
-import "github.com/apache/skywalking-banyandb/banyand/verifharness/vlib"
+import (
+	"fmt"
+	"os"
+	"path/filepath"
+	"sort"
+	"sync/atomic"
+	"time"
 
-func runSegAPI(bs []vlib.Behaviour, cfgJSON string, res *vlib.Result) {
-	res.Inconclusive = append(res.Inconclusive, "segapi not built yet")
+	"github.com/apache/skywalking-banyandb/banyand/internal/storage"
+	"github.com/apache/skywalking-banyandb/banyand/verifharness/vlib"
+	"github.com/apache/skywalking-banyandb/pkg/timestamp"
+)
+
+// API-level replay of spec/SegmentAPI.tla on a real TSDB from a single goroutine.
+
+type segHandle = storage.Segment[*fakeTable, any]
+
+type apiWorld struct {
+	*world
+	objs    map[int]segHandle          // one handle per segment captured at setup (released immediately): projection only
+	held    map[[2]int]segHandle       // (k, s) -> handle a logical client holds
+	pinned  map[[2]int]bool
+	nsegs   int
+	snapDir string
 }
 
-func runSegAtomic(bs []vlib.Behaviour, cfgJSON string, res *vlib.Result) {
-	res.Inconclusive = append(res.Inconclusive, "segatomic not built yet")
+func (a *apiWorld) dayStart(s int) time.Time { return a.at((s - 1) * 24) }
+
+func (a *apiWorld) rangeOf(segs []int) timestamp.TimeRange {
+	sort.Ints(segs)
+	lo, hi := segs[0], segs[len(segs)-1]
+	return timestamp.NewInclusiveTimeRange(a.dayStart(lo).Add(time.Hour), a.dayStart(hi).Add(2*time.Hour))
+}
+
+func setOf(l []any) map[int]bool {
+	m := map[int]bool{}
+	for _, v := range l {
+		m[vlib.AsInt(v)] = true
+	}
+	return m
+}
+
+func runSegAPI(bs []vlib.Behaviour, cfgJSON string, res *vlib.Result) {
+	for _, b := range bs {
+		res.Behaviours++
+		replaySegAPI(b, res)
+	}
+}
+
+func replaySegAPI(b vlib.Behaviour, res *vlib.Result) {
+	dir, err := os.MkdirTemp("", "verif-segapi")
+	if err != nil {
+		res.Inconclusive = append(res.Inconclusive, err.Error())
+		return
+	}
+	defer os.RemoveAll(dir)
+	origin := time.Date(2026, 5, 10, 0, 0, 0, 0, time.Local)
+	w := &world{dir: filepath.Join(dir, "db"), origin: origin, cfg: segCfg{Unit: "DAY", TTL: 100000}, closes: &atomic.Int32{}, num: 1}
+	_ = os.MkdirAll(w.dir, 0o700)
+	a := &apiWorld{world: w, objs: map[int]segHandle{}, held: map[[2]int]segHandle{}, pinned: map[[2]int]bool{}, snapDir: filepath.Join(dir, "snap")}
+	first := b.States[0]
+	a.nsegs = len(vlib.List(first, "rc"))
+	if err := w.open(0); err != nil {
+		res.Inconclusive = append(res.Inconclusive, "open: "+err.Error())
+		return
+	}
+	defer func() {
+		defer func() { _ = recover() }()
+		_ = w.db.Close()
+	}()
+	// setup = the spec's Init: every segment created, one shard written, dormant
+	for s := 1; s <= a.nsegs; s++ {
+		seg, cerr := w.db.CreateSegmentIfNotExist(a.dayStart(s).Add(90 * time.Minute))
+		if cerr != nil {
+			res.Inconclusive = append(res.Inconclusive, "setup create: "+cerr.Error())
+			return
+		}
+		if _, terr := seg.CreateTSTableIfNotExist(0); terr != nil {
+			res.Inconclusive = append(res.Inconclusive, "setup table: "+terr.Error())
+			return
+		}
+		a.objs[s] = seg
+		seg.DecRef()
+	}
+	for i, st := range b.States {
+		ev := vlib.Map(st, "last")
+		op := vlib.Str(ev, "op")
+		if i > 0 {
+			res.Steps++
+			res.Inc("op_" + op)
+			if msg := a.apply(ev); msg != "" {
+				res.Violate(b.ID, i, op+"-failed", "%s at %s", msg, vlib.Canon(ev))
+				return
+			}
+		}
+		if sig, msg := a.compare(st, op, ev); sig != "" {
+			res.Violate(b.ID, i, sig, "%s (after %s)", msg, vlib.Canon(ev))
+			return
+		}
+	}
+	// release what is still held so Close is clean
+	for k, h := range a.held {
+		if a.pinned[k] {
+			h.DecRef()
+		}
+	}
+}
+
+func (a *apiWorld) apply(ev map[string]any) (msg string) {
+	defer func() {
+		if r := recover(); r != nil {
+			msg = fmt.Sprintf("panic: %v", r)
+		}
+	}()
+	switch vlib.Str(ev, "op") {
+	case "select":
+		segs := vlib.Ints(vlib.List(ev, "segs"))
+		k := vlib.Int(ev, "k")
+		got, err := a.db.SelectSegments(a.rangeOf(segs), vlib.Bool(ev, "reopen"))
+		if err != nil {
+			return "SelectSegments: " + err.Error()
+		}
+		if len(got) != len(segs) {
+			for _, g := range got {
+				g.DecRef()
+			}
+			return fmt.Sprintf("SelectSegments returned %d segments, spec expects %v", len(got), segs)
+		}
+		for _, g := range got {
+			h, _ := a.hours(g.GetTimeRange().Start)
+			a.held[[2]int{k, h/24 + 1}] = g
+		}
+	case "release":
+		key := [2]int{vlib.Int(ev, "k"), vlib.Int(ev, "s")}
+		h, ok := a.held[key]
+		if !ok {
+			return "harness: no such handle"
+		}
+		delete(a.held, key)
+		h.DecRef() // the documented contract: the caller releases every segment it was given
+	case "idle":
+		storage.VerifCloseIdle(a.db)
+	case "retention":
+		upto := vlib.Int(ev, "upto")
+		// deadline = end of segment `upto`: now = that end + TTL
+		storage.VerifRetention(a.db, a.dayStart(upto+1).Add(time.Duration(a.cfg.TTL)*time.Hour))
+	case "forced":
+		if _, err := a.db.DeleteOldestSegment(); err != nil {
+			return "DeleteOldestSegment: " + err.Error()
+		}
+	case "scan":
+		if _, err := storage.VerifScan(a.db, vlib.Bool(ev, "reopen")); err != nil {
+			return "segments scan: " + err.Error()
+		}
+	case "snapshot":
+		_ = os.RemoveAll(a.snapDir)
+		_ = os.MkdirAll(a.snapDir, 0o700)
+		ok, err := a.db.TakeFileSnapshot(a.snapDir)
+		if err != nil {
+			return "TakeFileSnapshot: " + err.Error()
+		}
+		want := setOf(vlib.List(ev, "copied"))
+		ents, _ := os.ReadDir(a.snapDir)
+		if len(ents) != len(want) || (ok != (len(want) > 0)) {
+			return fmt.Sprintf("snapshot copied %d segment directories (success=%v), spec expects %d", len(ents), ok, len(want))
+		}
+	case "collect":
+		storage.VerifCollect(a.db)
+	}
+	return ""
+}
+
+// compare projects the real segments onto (rc, open, flag, dir, listed) and checks the holders' view.
+func (a *apiWorld) compare(st vlib.State, op string, ev map[string]any) (string, string) {
+	rc := vlib.Ints(vlib.List(st, "rc"))
+	tok := vlib.Ints(vlib.List(st, "tok"))
+	open, flag, dirs, inlist := setOf(vlib.List(st, "Open")), setOf(vlib.List(st, "Flag")), setOf(vlib.List(st, "Dir")), setOf(vlib.List(st, "InList"))
+	listed := map[string]bool{}
+	for _, s := range storage.VerifSegments(a.db) {
+		listed[s.Suffix] = true
+	}
+	suffix := ""
+	if op == "release" && !vlib.Bool(ev, "pinned") {
+		suffix = "-of-unpinned-handle"
+	}
+	for s := 1; s <= a.nsegs; s++ {
+		info := storage.VerifSegState[*fakeTable, any](a.objs[s])
+		if int(info.RefCount) != rc[s-1] {
+			return "refcount-differs-after-" + op + suffix, fmt.Sprintf("segment %d: real refCount %d, spec %d", s, info.RefCount, rc[s-1])
+		}
+		if int(info.Unpinned) != tok[s-1] {
+			return "unpinned-releases-differ-after-" + op + suffix, fmt.Sprintf("segment %d: real pending unpinned releases %d, spec %d", s, info.Unpinned, tok[s-1])
+		}
+		if info.Open != open[s] {
+			return "open-differs-after-" + op + suffix, fmt.Sprintf("segment %d: real open=%v, spec %v", s, info.Open, open[s])
+		}
+		if info.MustBeDeleted != flag[s] {
+			return "flag-differs-after-" + op, fmt.Sprintf("segment %d: real mustBeDeleted=%v, spec %v", s, info.MustBeDeleted, flag[s])
+		}
+		if info.DirExists != dirs[s] {
+			return "dir-differs-after-" + op + suffix, fmt.Sprintf("segment %d: directory exists=%v, spec %v", s, info.DirExists, dirs[s])
+		}
+		if listed[info.Suffix] != inlist[s] {
+			return "listing-differs-after-" + op, fmt.Sprintf("segment %d: listed=%v, spec %v", s, listed[info.Suffix], inlist[s])
+		}
+	}
+	// property-level: every pinned handle sees an open segment with its shard table and directory
+	for _, hv := range vlib.List(st, "handles") {
+		h := vlib.Rec(hv)
+		if !vlib.Bool(h, "pinned") {
+			continue
+		}
+		key := [2]int{vlib.Int(h, "k"), vlib.Int(h, "s")}
+		a.pinned[key] = true
+		seg := a.held[key]
+		if seg == nil {
+			continue
+		}
+		tables, _ := seg.Tables()
+		info := storage.VerifSegState[*fakeTable, any](seg)
+		if len(tables) == 0 || !info.Open || !info.DirExists {
+			return "held-segment-closed-or-deleted-after-" + op + suffix,
+				fmt.Sprintf("client %v holds segment %d but open=%v dir=%v tables=%d", h["c"], key[1], info.Open, info.DirExists, len(tables))
+		}
+	}
+	return "", ""
 }
